@@ -141,3 +141,46 @@ def run_rowfilter(prog, fn="mpq_ILLwrite_mps", rule="R-ROWFILTER"):
     res.counts["row_length_tests"] = len(tests)
     res.floor("row-naming emissions in the MPS writer", n, 3)
     return res
+
+
+def run_rangepair(prog, fn="mpq_ILLwrite_mps", rule="R-RANGEPAIR"):
+    """A ranged row is written as a `G` row plus a RANGES record; the RANGES record is what makes it ranged again.  If the record's
+    emission depends on the range *value* alone, a ranged row with range 0 (an equation by another name) comes back as a plain `>=`
+    row.  Every emission of a RANGES record (a print whose literal starts with the token RANGE and that names a row) must be governed,
+    among its dominating conditions, by one that reads the row's sense - the decision "this row is ranged" - so that the record can be
+    written for every 'R' row."""
+    from ..core import dominators, apath, fields_of
+    res = RuleResult(rule, "the emission of a RANGES record in the MPS writer is governed by a condition that reads the row's sense")
+    f = prog.require_fn(fn)
+    dom, succ = dominators(prog, f)
+    sense_tests = set()
+    for bid in f.live:
+        c = f.blocks[bid].get("c")
+        if c is None:
+            continue
+        for nd in walk(c):
+            if nd[0] == "i":
+                fl = fields_of(apath(nd[1])[2])
+                if fl and fl[-1].endswith("ILLlpdata::sense"):
+                    sense_tests.add(bid)
+    n = 0
+    for b, i, c in f.calls():
+        if (callee(c) or "") not in PRINTERS and c[1] not in PRINTERS:
+            continue
+        lits = [strip(a)[1] for a in c[3] if isinstance(strip(a), list) and strip(a) and strip(a)[0] == "s"]
+        if not any(x.strip().startswith("RANGE ") for x in lits):
+            continue
+        n += 1
+        res.obligations += 1
+        res.nontrivial += 1
+        # the governing conditions: dominating condition blocks inside the loop body (those that do not dominate the section header are enough:
+        # any dominating block counts)
+        if sense_tests & dom.get(b["id"], set()):
+            res.sample({"site": "%s: %s" % (short_loc(c[4]), show(c)[:60]), "verdict": "governed by a test of the row's sense"})
+        else:
+            res.violations.append(Violation(rule, "%s|RANGES record emitted by value only" % fn.replace("mpq_", ""), fn, short_loc(c[4]),
+                                            "%s is not governed by any condition that reads sense[]: whether a row is ranged is decided by the value of its range, "
+                                            "so an 'R' row with range 0 gets no RANGES record and reads back as a plain G row" % show(c)[:80]))
+    res.counts["ranges_record_emissions"] = n
+    res.floor("RANGES record emissions in the MPS writer", n, 1)
+    return res
